@@ -159,6 +159,10 @@ Section LTS.
       mkCfg (c_insts c ++ [mkInst r g parent inherited x (init_ns G) []])
             (c_objs c) (c_trace c) (c_acq c) (c_gens c).
 
+  (* what a node fed by predecessors receives: the merge of their final outputs — or, for the
+     re-execution of a node that interrupted itself, the zero value *)
+  Definition join_val (a : node) (ys : list X) : X := if n_zero a then mrg [] else mrg ys.
+
   Definition final_of (J : inst) (n : N) : option X :=
     match get_ns J n with
     | Some (mkNs (PFin y) None) => Some y
@@ -285,7 +289,7 @@ Section LTS.
                 match n_preds a with
                 | [] => Some (set_inst c i (set_ns J n (mkNs (PReady (i_in J)) None)))
                 | ps => match omapM (final_of J) ps with
-                        | Some ys => Some (set_inst c i (set_ns J n (mkNs (PReady (mrg ys)) None)))
+                        | Some ys => Some (set_inst c i (set_ns J n (mkNs (PReady (join_val a ys)) None)))
                         | None => None
                         end
                 end
@@ -473,7 +477,7 @@ Section LTS.
     exists J, nth_error (c_insts c) i = Some J /\
       match n_preds a with
       | [] => x = i_in J
-      | ps => exists ys, Forall2 (fin c i) ps ys /\ x = mrg ys
+      | ps => exists ys, Forall2 (fin c i) ps ys /\ x = join_val a ys
       end.
   (* x is the node's input: what the pre-handler returned if there is one *)
   Definition is_pre (c : config) (i : nat) (a : node) (x : X) : Prop :=
